@@ -49,6 +49,25 @@ class _StubLog:
     def isEnabledFor(self, lvl): return False
 
 
+def fresh(s):
+    """an equal but distinct string object (for len >= 2): names reach the core the way run-time data does, not as interned literals"""
+    return (s + "_")[:-1] if isinstance(s, str) else s
+
+
+def enc(o):
+    """the line protocol is ASCII: other characters travel as ~hex~ (the model treats characters opaquely except '_')"""
+    if isinstance(o, str): return "".join(c if ord(c) < 128 else "~%x~" % ord(c) for c in o)
+    if isinstance(o, list): return [enc(x) for x in o]
+    if isinstance(o, dict): return {enc(k): enc(v) for k, v in o.items()}
+    return o
+
+def dec(o):
+    if isinstance(o, str): return re.sub(r"~([0-9a-f]+)~", lambda m: chr(int(m.group(1), 16)), o)
+    if isinstance(o, list): return [dec(x) for x in o]
+    if isinstance(o, dict): return {dec(k): dec(v) for k, v in o.items()}
+    return o
+
+
 def handler_component(attr):
     """the documented naming rule, written independently of core.py: `_handle_<component>_<Event>`"""
     m = re.match(r"^_handle_(.*)_[^_]*$", attr, re.S)
@@ -76,6 +95,10 @@ class Env:
         self.shared = {}
         self.api_exc = []             # [api, waiter id or component, exception class, callback kind] of calls that raised
         self.silent = []              # waiters whose invocation the harness cannot observe (callback None, sink without _all_dependencies_met)
+        self.registered = set()       # names for which a register call has been issued (harness bookkeeping, for hasComponent)
+        self.violations = []          # property-level observations made inside callbacks / API probes: [key, text]
+        self.ctor_args = []
+        self.twin = None
         pc = chk.pox_core
         real = chk.recoco.Scheduler
         def quiet_scheduler(*a, **kw):
@@ -84,25 +107,73 @@ class Env:
         chk.recoco.Scheduler = quiet_scheduler
         try:
             with contextlib.redirect_stdout(chk.banner_sink):
+                if case.get("twin"):
+                    self.twin = pc.initialize(threaded_selecthub=False, handle_signals=False)
                 self.core = pc.initialize(threaded_selecthub=False, handle_signals=False)   # also sets pox.core.core
         finally:
             chk.recoco.Scheduler = real
         core = self.core
+        if self.twin is not None: self._twin_setup()
         self.sched_calls = []
         core.scheduler.callLater = lambda f, *a, **k: self.sched_calls.append((f, a, k))    # simulated scheduler thread
         self.tw_calls = 0
-        orig_try = core._try_waiter
-        def counted_try_waiter(entry):            # pass-through; only counts, so that a livelock ends the case instead of the run
-            self.tw_calls += 1
-            if self.tw_calls > TW_LIMIT:
-                self.runaway = True
-                raise Runaway()
-            return orig_try(entry)
-        core._try_waiter = counted_try_waiter
+        orig_try = getattr(core, "_try_waiter", None)
+        if orig_try is not None:                   # (a refactored core without that method simply runs unguarded)
+            def counted_try_waiter(entry):        # pass-through; only counts, so that a livelock ends the case instead of the run
+                self.tw_calls += 1
+                if self.tw_calls > TW_LIMIT:
+                    self.runaway = True
+                    raise Runaway()
+                return orig_try(entry)
+            core._try_waiter = counted_try_waiter
+        self.on_registered = dict((k, list(v)) for k, v in case.get("onRegistered", {}).items())
+        if self.on_registered:
+            core.addListener(pc.ComponentRegistered, self._on_registered)
         core.addListener(pc.GoingUpEvent, self._on_going_up)
         core.addListener(pc.UpEvent, self._on_up)
         core.addListener(pc.GoingDownEvent, self._on_going_down)
         core.addListener(pc.DownEvent, self._on_down)
+
+    # ---- a second, independent core in the same process: nothing done to one may show on the other
+    def _twin_setup(self):
+        tw = self.twin
+        self.twin_log = []
+        names = set()
+        for a in all_acts(self.case):
+            if a["a"] == "register": names.add(a["n"])
+            if a["a"] == "declare": names.update(a["deps"])
+        for s in self.case["sinks"]:
+            names.update(s["explicit"])
+        self.twin_names = sorted(names - {"core"})
+        for n in self.twin_names:
+            tw.call_when_ready(lambda n=n: self.twin_log.append(["fired", n]), [n], name="twin-" + n)
+        tw.call_when_ready(lambda: self.twin_log.append(["fired", "zz_twin_never"]), ["zz_twin_never"], name="twin-never")
+        for n in self.twin_names:
+            tw.register(n, object())
+        tw.addListener(self.chk.pox_core.UpEvent, lambda e: self.twin_log.append(["up"]))
+        self.twin_tok = tw._get_go_up_deferral()
+        tw.goUp()
+        self.twin_mark = len(self.twin_log)
+
+    def _twin_check(self):
+        """after the main history: the twin saw none of it, and still works"""
+        tw, out = self.twin, []
+        want = [["fired", n] for n in self.twin_names]
+        if self.twin_log[:self.twin_mark] != want: out.append("twin waiters before the main history: %r" % (self.twin_log[:self.twin_mark],))
+        if self.twin_log[self.twin_mark:]: out.append("the main history reached the other core: %r" % (self.twin_log[self.twin_mark:],))
+        n0 = len(self.twin_log)
+        tw.register("zz_twin_never", object())
+        self.twin_tok()
+        if self.twin_log[n0:] != [["fired", "zz_twin_never"], ["up"]]:
+            out.append("the other core afterwards: %r" % (self.twin_log[n0:],))
+        for n in list(self.core.components):
+            if n != "core" and tw.components.get(n) is self.core.components[n]: out.append("component %r of the main core is registered on the other core" % n)
+        if "zz_twin_never" in self.core.components: out.append("the other core's registration shows on the main core")
+        return out
+
+    def _on_registered(self, ev):
+        acts = self.on_registered.pop(ev.name, None)       # once per name
+        if acts: self.run_script(acts)
 
     # ---- lifecycle handlers
     def _on_going_up(self, ev):
@@ -128,6 +199,11 @@ class Env:
     def comp_class(self, name):
         """the class whose single instance is the component `name`; some names go through `_core_name`"""
         if name in self.comps: return self.comps[name][0]
+        alias = self.case.get("alias", {}).get(name)           # the same object registered under two names
+        if alias is not None:
+            self.comp_class(alias)
+            self.comps[name] = self.comps[alias]
+            return self.comps[name][0]
         env = self
         evs = self.case["events"].get(name)
         falsy = self.case.get("falsy", {}).get(name)       # a component whose truth value is False (empty table, 0, "" ...)
@@ -141,7 +217,7 @@ class Env:
                 inst = base.__new__(cls)
                 env.comps[name][1] = inst
             return inst
-        d = {"__new__": __new__}
+        d = {"__new__": __new__, "__init__": lambda self_, *a, **k: env.ctor_args.append([name, list(a), sorted(k.items())]) if (a or k) else None}
         if falsy == "boolFalse": d["__bool__"] = lambda self_: False
         elif falsy is not None and base is not list: d["__len__"] = lambda self_: 0
         if evs is not None:
@@ -214,18 +290,26 @@ class Env:
     def _do_act(self, a, going_up_event=None):
         core, k = self.core, a["a"]
         if k == "register":
-            name, via = a["n"], a.get("via", "register")
+            name, via = fresh(a["n"]), a.get("via", "register")
+            self.registered.add(name)
             if self.comp_class(name) is None:             # 0, "", (), {} ...: only register(name, value) can register them
                 core.register(name, self.component(name))
+            elif via == "registerNew" and a.get("ctor"):
+                n0 = len(self.ctor_args)
+                core.registerNew(self.comp_class(name), 7, opt=name)
+                if self.comps[name][1] is not None and self.ctor_args[n0:] != [[name, [7], [("opt", name)]]]:
+                    self.violations.append(["convention:registerNew-ctor-args", "registerNew(cls, 7, opt=%r) constructed with %r" % (name, self.ctor_args[n0:])])
             elif via == "registerNew":
                 core.registerNew(self.comp_class(name))
+            elif a.get("conv") == "kw":
+                core.register(name=name, component=self.component(name))
             elif via == "register1":
                 core.register(self.component(name))
             else:
                 core.register(name, self.component(name))
         elif k == "declare":
             wid = self.next_id; self.next_id += 1
-            deps, ct, body = list(a["deps"]), a.get("ctype", "list"), a["body"]
+            deps, ct, body = [fresh(d) for d in a["deps"]], a.get("ctype", "list"), a["body"]
             self.decls.append([wid, "declare:" + ct + ":%d" % len(deps), sorted(set(deps)), self.opi, a.get("cb", "func")])
             arg = {"list": list, "tuple": tuple, "set": set}.get(ct, list)(deps)
             if ct == "str": arg = deps[0]
@@ -286,19 +370,32 @@ class Env:
                 cb = None
                 self.silent.append(wid)
             else:
+                want_kw = {"token": wid} if a.get("with_kw") else {}
                 def cb(*args, **kw):
-                    if args != tuple(a.get("args", ())) : raise AssertionError("args not passed through")
+                    if args != tuple(a.get("args", ())) or kw != want_kw:
+                        env.violations.append(["convention:args-not-passed-through", "waiter %d called with %r %r, declared with args=%r kw=%r"
+                                               % (wid, args, kw, tuple(a.get("args", ())), want_kw)])
                     if env.fired(wid): env.in_callback(wid, body)
             self.keep.append(cb)
             self.cb_ids[id(cb.__func__) if kind in ("method", "typemethod") else id(cb)] = wid
             kwargs = {}
             if a.get("named") or kind in ("none", "partial"): kwargs["name"] = "w%d" % wid
             if kind == "func" and a.get("args"): kwargs["args"] = tuple(a["args"])
+            if kind == "func" and a.get("with_kw"): kwargs["kw"] = {"token": wid}
             if kind == "builtin_raise":
                 kwargs["args"] = tuple([wid + 1, 0])                  # truediv(wid + 1, 0) -> ZeroDivisionError
                 self.keep.append(kwargs["args"]); self.cb_ids[id(kwargs["args"])] = wid
                 del self.cb_ids[id(cb)]
-            core.call_when_ready(cb, arg, **kwargs)
+            if a.get("conv") == "kw":
+                core.call_when_ready(callback=cb, components=arg, **kwargs)
+            elif a.get("conv") == "positional" and kind == "func":
+                core.call_when_ready(cb, arg, kwargs.get("name"), kwargs.get("args", ()), kwargs.get("kw", {}))
+            else:
+                core.call_when_ready(cb, arg, **kwargs)
+            if a.get("mutate_after") and ct in ("list", "set", "deque"):
+                # the caller goes on using its own container: the waiter must keep the components it was declared with
+                if a["mutate_after"] == "clear": arg.clear()
+                else: (arg.add if ct == "set" else arg.append)("zz_never")
         elif k == "listen":
             wid = self.next_id; self.next_id += 1
             s = self.case["sinks"][a["sink"]]
@@ -316,6 +413,21 @@ class Env:
             if s.get("listen_args") == "all": kw["listen_args"] = {None: {"priority": 3}, (sorted(want) + ["x"])[0]: {"weak": False}}
             elif s.get("listen_args") == "missing": kw["listen_args"] = {"nobody": {"priority": 3}}
             core.listen_to_dependencies(sink, arg, attrs=s.get("set_attrs", True), short_attrs=s.get("short_attrs", False), **kw)
+        elif k == "has":
+            name = fresh(a["n"])
+            got = core.hasComponent(name)
+            want = name in self.registered or name == "core"
+            try:
+                obj = getattr(core, name); attr = "object"
+            except AttributeError:
+                obj = None; attr = "AttributeError"
+            self.log.append(["_has", name, got])
+            if got is not want and got != want:
+                self.violations.append(["api:hasComponent-wrong", "hasComponent(%r) = %r, registered: %r" % (name, got, want)])
+            elif want and (attr != "object" or obj is not (core if name == "core" else self.comps[name][1])):
+                self.violations.append(["api:getattr-wrong", "core.%s gives %s" % (name, attr if attr != "object" else "another object")])
+            elif not want and attr == "object":
+                self.violations.append(["api:getattr-wrong", "core.%s exists but %r was never registered" % (name, name)])
         elif k == "getDeferral":
             d = going_up_event.get_deferral() if going_up_event is not None else core._get_go_up_deferral()
             self.toks.append(d); self.tok_out.append(1)
@@ -394,13 +506,19 @@ class Env:
                 for wid, sink in lst:
                     sink_attrs[str(wid)] = sorted(n for n, v in vars(sink).items()
                                                   if any(v is self.core.components.get(c) for c in self.core.components))
-            pending = [self.wid_of(e) for e in self.core._waiters]
-            internal_out = len(self.core._go_up_deferrals)
+            try:                                   # private representation: compared when readable, never relied upon
+                pending = [self.wid_of(e) for e in self.core._waiters]
+                internal_out = len(self.core._go_up_deferrals)
+            except Exception:
+                pending = internal_out = None
+            if self.twin is not None:
+                for t in self._twin_check(): self.violations.append(["isolation:two-cores-share-state", t])
         finally:
             threading.Thread, time.sleep, gc.collect, pc.log = saved
         return {"log": self.log, "marks": marks, "after": after, "op_exc": op_exc, "decls": self.decls,
                 "comps": list(self.core.components), "pending": pending, "outstanding": internal_out,
-                "hits": sorted(self.hits), "sink_attrs": sink_attrs, "listen_order": self.listen_order, "silent": self.silent, "runaway": self.runaway, "api_exc": self.api_exc, "probe_errors": self.probe_errors}
+                "hits": sorted(self.hits), "sink_attrs": sink_attrs, "listen_order": self.listen_order, "silent": self.silent, "runaway": self.runaway, "api_exc": self.api_exc, "probe_errors": self.probe_errors,
+                "violations": self.violations}
 
 
 def segments(log, marks):
@@ -499,6 +617,7 @@ class C08(Check):
         import pox.lib.revent as revent
         self.pox_core, self.revent = pox.core, revent
         self.ncases = 0
+        self._unreadable = set()      # cases in which the core's private representation could not be read (compared without it)
 
     def translate(self):
         """static side condition of the lifecycle theorems: exactly one call site of goUp() in pox/, in boot.py after _do_launch"""
@@ -716,6 +835,104 @@ class C08(Check):
             yield mkcase([S(["y"], 1, g=1), DECL(["x"], 2), DECL(["y"], 0), S(["y"], 1, g=1), REG("x")], bodies=bodies)
             yield mkcase([DECL(["x"], 2), S(["z"], 1), DECL(["z"], 0), S(["z"], 1), REG("x")], bodies=[[], body, [S(["z"], 1), REG("z")]])
 
+    # ---- families added from HARDENING.md
+    LONG = {"a": "alpha", "b": "beta", "c": "gamma", "d": "delta", "e": "eps", "x": "xray", "y": "yankee", "z": "zulu"}
+
+    def _renamed(self, case, mapping):
+        """the same history over other component names (sink-free cases)"""
+        c = copy.deepcopy(case)
+        for a in all_acts(c):
+            if "n" in a: a["n"] = mapping.get(a["n"], a["n"])
+            if "deps" in a: a["deps"] = [mapping.get(d, d) for d in a["deps"]]
+        return c
+
+    def _name_cases(self):
+        """item 3: names that are run-time strings (never the interned literal), multi-character, non-ASCII, with spaces, digits,
+        empty; compared with == / membership, never identity; never normalised"""
+        for c in self._exhaustive_rw(3, 2):
+            yield self._renamed(c, self.LONG)
+        odd = {"a": "k\u00f6ln", "b": "\uff41", "c": "a b", "x": "9x", "y": "", "z": "\u0130stanbul"}
+        for i, c in enumerate(self._exhaustive_rw(2, 2)):
+            if i % 3 == 0: yield self._renamed(c, odd)
+        for i, c in enumerate(self._callback_kind_cases()):
+            if i % 4 == 0: yield self._renamed(c, odd)
+        ev = {"k\u00f6ln": ["EvA", "\u00c9v"], "\uff41": ["EvA"], "a b": ["EvA"], "9x": ["EvA"]}
+        sinks = [{"attrs": ["_handle_k\u00f6ln_EvA", "_handle_k\u00f6ln_\u00c9v", "_handle_\uff41_EvA", "_handle_a b_EvA", "_handle_9x_EvA",
+                            "_handle_K\u00d6LN_EvA", "_handle_a_EvA"], "explicit": ["9x"], "ctype": "list", "met": 0}]
+        regs = [REG("k\u00f6ln"), REG("\uff41"), REG("a b"), REG("9x"), REG("K\u00d6LN"), REG("a"), REG("A B")]
+        for pos in range(len(regs) + 1):
+            yield mkcase(regs[:pos] + [LISTEN(0)] + regs[pos:], bodies=[[]], sinks=sinks, events=ev)
+
+    def _probe_cases(self):
+        """item 1: the same question asked again after the answer changed (hasComponent / core.<name> before and after register,
+        inside callbacks and handlers); item 2: the caller's container mutated after the call, one object under two names"""
+        H = lambda n: {"a": "has", "n": n}
+        yield mkcase([H("x"), H("core"), DECL(["x"], 1), H("x"), REG("x"), H("x"), H("y"), REG("y"), H("y"), H("x")],
+                     bodies=[[], [H("x"), H("y"), REG("y"), H("y")]])
+        yield mkcase([H("x"), H("x"), REG("x", "registerNew"), H("x"), REG("x"), H("x"), GOUP, H("x"), QUIT, H("x")], bodies=[[]],
+                     onGoingUp=[H("x"), H("z")], onUp=[REG("z"), H("z")])
+        yield mkcase([H("x"), REG("y"), H("x"), REG("x"), H("x")], bodies=[[]], falsy={"x": "len0", "y": "int0"})
+        for mut in ("append", "clear"):
+            for ct in ("list", "set", "deque"):
+                yield mkcase([DECL(["x", "y"], 0, ctype=ct, mutate_after=mut), DECL(["x"], 0, ctype=ct, mutate_after=mut),
+                              REG("x"), REG("zz_never"), REG("y")], bodies=[[]])
+                yield mkcase([REG("x"), DECL(["x", "y"], 1, ctype=ct, mutate_after=mut), REG("y")], bodies=[[], [REG("zz_never")]])
+        yield mkcase([DECL(["x"], 0), DECL(["y"], 0), DECL(["x", "y"], 0), REG("x"), H("y"), REG("y")], bodies=[[]], alias={"y": "x"})
+        yield mkcase([REG("y"), DECL(["x"], 0), H("x"), REG("x")], bodies=[[]], alias={"y": "x"}, falsy={"x": "len0"})
+
+    def _convention_cases(self):
+        """item 4: keyword / positional forms of the three entry points, args= and kw= handed through to the callback,
+        constructor arguments of registerNew"""
+        for conv in ("kw", "positional", None):
+            kw = {"conv": conv} if conv else {}
+            yield mkcase([DECL(["x"], 0, with_kw=True, args=[3, 4], **kw), DECL(["x"], 1, named=True, with_kw=True, **kw),
+                          DECL(["x", "y"], 0, args=[5], **kw), dict(REG("x"), conv="kw"), dict(REG("y", "registerNew"), ctor=True)],
+                         bodies=[[], [RAISE]])
+            yield mkcase([dict(REG("x", "registerNew"), ctor=True), DECL(["x"], 0, with_kw=True, **kw), DECL([], 0, ctype="tuple", args=[1], **kw)],
+                         bodies=[[]], events={"x": ["EvA"]})
+
+    def _one_pass_cases(self):
+        """item 5: several waiters become ready in ONE register; the odd one (raising, registering, declaring, quitting, releasing,
+        listening) first, in the middle, last; before and after goUp"""
+        sink = {"attrs": ["_handle_x_EvA"], "explicit": [], "ctype": "none", "met": 0}
+        odd = [[RAISE], [REG("y"), RAISE], [DECL(["x"], 0), DECL(["y"], 0)], [QUIT], [GET, REL(0), REL(0)], [LISTEN(0)], [REG("x")]]
+        for body in odd:
+            for pos in range(4):
+                ws = [DECL(["x"], 0), DECL(["x"], 0), DECL(["x", "y"], 0)]
+                ws.insert(min(pos, 3), DECL(["x"], 1))
+                for pre in ([], [GOUP], [GET, GOUP]):
+                    yield mkcase(pre + ws + [REG("x"), REG("y")], bodies=[[], body], sinks=[sink], events={"x": ["EvA"]})
+
+    def _registered_listener_cases(self):
+        """items 5/7: a listener of ComponentRegistered that registers, declares or raises while `register` is delivering the event:
+        the waiters of that register are still tried, `register` does not raise (oracle only: the model has no such listeners)"""
+        for acts in ([RAISE], [REG("y")], [REG("y"), RAISE], [DECL(["x"], 0)], [DECL(["y"], 0), REG("y")], [REG("x")]):
+            base = [DECL(["x"], 0), DECL(["y"], 0), DECL(["x", "y"], 1)]
+            yield mkcase(base + [REG("x"), REG("y")], bodies=[[], [REG("z")]], onRegistered={"x": acts})
+            yield mkcase(base + [REG("y"), REG("x"), REG("x")], bodies=[[], [RAISE]], onRegistered={"x": acts, "y": [RAISE]})
+            yield mkcase([GOUP] + base + [REG("x", "registerNew"), REG("y")], bodies=[[], []], onRegistered={"x": acts})
+
+    def _handler_shape_cases(self):
+        """item 6 (its analogue here): a structure-aware sweep of attribute-name shapes around `_handle_<component>_<Event>`:
+        every prefix variant x every tail of 0..3 segments over {a, b, Ev, empty}"""
+        ev = {"a": ["Ev", "b_Ev", "", "a"], "b": ["Ev", "a"], "a_b": ["Ev"], "": ["Ev", "a_Ev"], "a_": ["Ev"], "Ev": ["Ev"]}
+        regs = [REG(n) for n in ["a", "b", "a_b", "", "a_", "Ev", "_a", "a_a", "b_a", "Ev_a"]]
+        segs = ["a", "b", "Ev", ""]
+        tails = [[]] + [[x] for x in segs] + [[x, y] for x in segs for y in segs] + [[x, y, z] for x in segs for y in segs for z in segs]
+        for pre in ("_handle_", "_handle", "__handle_", "_Handle_", "handle_", "_handle__"):
+            for t in tails:
+                attr = pre + "_".join(t)
+                sink = {"attrs": [attr], "explicit": [], "ctype": "none", "met": 0}
+                yield mkcase([LISTEN(0)] + regs, bodies=[[]], sinks=[sink], events=ev)
+
+    def _twin_cases(self):
+        """item 1: two cores in one process share nothing"""
+        picks = list(self._deferral_cases())[::40] + list(self._quit_cases())[::3] + list(self._misc_cases())[4:] + \
+                list(self._callback_kind_cases())[::9] + list(self._sink_cases())[::25] + list(self._exhaustive_rw(2, 2))[::16]
+        for c in picks:
+            c = copy.deepcopy(c); c["twin"] = True
+            yield c
+
     def corpus(self):
         cases = []
         for nr in range(4):
@@ -730,6 +947,9 @@ class C08(Check):
         cases += list(self._d31_cases())
         cases += list(self._falsy_cases())
         cases += list(self._shared_callable_cases())
+        for fam in (self._name_cases, self._probe_cases, self._convention_cases, self._one_pass_cases, self._registered_listener_cases,
+                    self._handler_shape_cases, self._twin_cases):
+            cases += list(fam())
         return cases
 
     def _random_case(self, rng, big):
@@ -814,11 +1034,31 @@ class C08(Check):
                     if a is RAISE and rng.random() < 0.7: a = GET
                     acts.append(a)
             hs[h] = acts
+        extra = {}
+        if rng.random() < 0.35:                 # multi-character names (distinct string objects at run time)
+            m = {n: self.LONG[n] for n in names}
+            names_l = [m[n] for n in names]
+        else:
+            m = None
+        if rng.random() < 0.1: extra["twin"] = True
+        for a in ops + [x for b in bodies for x in b]:
+            if a["a"] == "declare" and a.get("ctype") in ("list", "set") and a["deps"] and rng.random() < 0.15:
+                a["mutate_after"] = rng.choice(["append", "clear"])
+            if a["a"] == "declare" and a.get("cb", "func") == "func" and not a.get("args") and rng.random() < 0.15:
+                a["with_kw"] = True; a["conv"] = rng.choice(["kw", "positional", None])
+            if a["a"] == "register" and a["via"] == "register" and rng.random() < 0.1: a["conv"] = "kw"
+        for _ in range(rng.choice([0, 0, 1, 3])):
+            ops.insert(rng.randint(0, len(ops)), {"a": "has", "n": rng.choice(names + ["zz"])})
         falsy = {}
         for n in names:
             if rng.random() < 0.3:
                 falsy[n] = rng.choice(OBJECT_FALSY + (sorted(BUILTIN_FALSY) if n not in events else []))
-        return mkcase(ops, bodies=bodies, sinks=sinks, events=events, falsy=falsy, **hs)
+        case = mkcase(ops, bodies=bodies, sinks=sinks, events=events, falsy=falsy, **dict(hs, **extra))
+        if m is not None and not sinks:
+            case = self._renamed(case, m)
+            case["events"] = {m.get(k, k): v for k, v in case["events"].items()}
+            case["falsy"] = {m.get(k, k): v for k, v in case["falsy"].items()}
+        return case
 
     def generate(self, rng, tier):
         n = 1200 if tier == "quick" else 60000
@@ -839,12 +1079,15 @@ class C08(Check):
             gc.collect(1)                     # fresh cores hold a pipe pair each until collected; young generations only, the
             self.banner_sink.seek(0); self.banner_sink.truncate()      # retained results are not rescanned
         with contextlib.redirect_stdout(self.banner_sink):      # banner, autoBindEvents warnings
-            return Env(self, case).run()
+            r = Env(self, case).run()
+        if r["pending"] is None: self._unreadable.add(id(case))
+        return r
 
     def model_request(self, case):
-        if any(a.get("shared") is not None for a in all_acts(case)):
+        if any(a.get("shared") is not None for a in all_acts(case)) or case.get("onRegistered"):
             return None        # equal _waiters tuples: the model identifies declarations by serial number; these cases are judged by the oracle
         nb = len(case["bodies"])              # body nb: the empty body of `callback=None` waiters; nb+1: a C function that raises
+        keep = lambda acts: [act(a) for a in acts if a["a"] != "has"]        # hasComponent/getattr probes have no effect
         def act(a):
             r = {k: v for k, v in a.items() if k in ("a", "n", "deps", "body", "sink", "k")}
             if a["a"] == "declare":
@@ -852,18 +1095,19 @@ class C08(Check):
                 if a.get("cb") == "builtin_raise": r["body"] = nb + 1
                 if a.get("ctype") == "opaque": r["deps"] = [OPAQUE]
             return r
-        return {"repaired": True, "fuel": FUEL,
-                "bodies": [[act(a) for a in b] for b in case["bodies"]] + [[], [{"a": "raise"}]],
-                "onGoingUp": [act(a) for a in case["onGoingUp"]], "onUp": [act(a) for a in case["onUp"]],
-                "onGoingDown": [act(a) for a in case["onGoingDown"]], "onDown": [act(a) for a in case["onDown"]],
+        return enc({"repaired": True, "fuel": FUEL,
+                "bodies": [keep(b) for b in case["bodies"]] + [[], [{"a": "raise"}]],
+                "onGoingUp": keep(case["onGoingUp"]), "onUp": keep(case["onUp"]),
+                "onGoingDown": keep(case["onGoingDown"]), "onDown": keep(case["onDown"]),
                 "sinks": [{"attrs": s["attrs"], "noncallable": s.get("noncallable", []), "explicit": s["explicit"], "met": s.get("met"),
                            "set_attrs": bool(s.get("set_attrs", True)), "short_attrs": bool(s.get("short_attrs", False))} for s in case["sinks"]],
                 "events": [[c, evs] for c, evs in sorted(case["events"].items())],
-                "ops": [act(a) for a in case["ops"]]}
+                "ops": [act(a) if a["a"] != "has" else {"a": "release", "k": 10 ** 6} for a in case["ops"]]})
 
     def impl_view(self, case, obs):
         segs = segments(obs["log"], obs["marks"])
         segs = [[e for e in s if not e[0].startswith("_")] for s in segs]
+
         wired = {}
         for k, attr, comp, ev in obs["hits"]:
             wired.setdefault(str(k), []).append([attr, comp, ev])
@@ -873,6 +1117,8 @@ class C08(Check):
 
     def model_obs(self, case, resp):
         if "error" in resp: return resp
+        resp = dec(resp)
+        if id(case) in self._unreadable: resp = dict(resp, pending=None, outstanding=None)
         silent = set(s["id"] for s in resp["sinks"] if case["sinks"][s["sink"]].get("met") is None)
         silent |= set(i for i, b in resp["decls"] if b in (len(case["bodies"]), len(case["bodies"]) + 1))
         segs = segments(resp["log"], resp["marks"])
@@ -894,6 +1140,8 @@ class C08(Check):
             twice = [e[1] for e in log if e[0] == "fired"]
             return "runaway:%s | more than %d events or %d _try_waiter calls in one history" % (
                 "callback-reinvoked" if len(twice) != len(set(twice)) else "events", RUNAWAY, TW_LIMIT)
+        for key, text in obs["violations"]:
+            return "%s | %s" % (key, text)
         # ---- D30: an empty list / tuple of dependencies (checked first: the TypeError variant poisons every later register)
         early_fired = set(e[1] for e in log if e[0] == "fired")
         for api, who, exc, cbkind in obs["api_exc"]:
